@@ -887,9 +887,15 @@ impl<const N: usize, T> CircularBuffer<N, T> {
         self.size -= 1;
     }
 
+    /// Drops the elements in `range` and sets `start` and `size` to the given new values.
+    ///
+    /// `start` and `size` are updated *before* any element is dropped, so that no element can be
+    /// dropped twice if the destructor of an element panics.
     #[inline]
-    unsafe fn drop_range(&mut self, range: Range<usize>) {
+    unsafe fn drop_range(&mut self, range: Range<usize>, new_start: usize, new_size: usize) {
         if range.is_empty() {
+            self.start = new_start;
+            self.size = new_size;
             return;
         }
 
@@ -920,6 +926,11 @@ impl<const N: usize, T> CircularBuffer<N, T> {
 
         let drop_from = add_mod(self.start, range.start, N);
         let drop_to = add_mod(self.start, range.end, N);
+
+        // Shrink the buffer before dropping: the elements in `range` are no longer part of the
+        // buffer from this point on, even if one of their destructors panics
+        self.start = new_start;
+        self.size = new_size;
 
         let (right, left) = if drop_from < drop_to {
             (&mut self.items[drop_from..drop_to], &mut [][..])
@@ -1833,8 +1844,7 @@ impl<const N: usize, T> CircularBuffer<N, T> {
         // SAFETY: `drop_range` is a valid range, so elements within are guaranteed to be
         // initialized. The `size` of the buffer is shrunk before dropping, so no value will be
         // dropped twice in case of panics.
-        unsafe { self.drop_range(drop_range) };
-        self.size = len;
+        unsafe { self.drop_range(drop_range, self.start, len) };
     }
 
     /// Shortens the buffer, keeping only the back `len` elements and dropping the rest.
@@ -1868,9 +1878,8 @@ impl<const N: usize, T> CircularBuffer<N, T> {
         // SAFETY: `drop_range` is a valid range, so elements within are guaranteed to be
         // initialized. The `start` of the buffer is shrunk before dropping, so no value will be
         // dropped twice in case of panics.
-        unsafe { self.drop_range(drop_range) };
-        self.start = add_mod(self.start, drop_len, N);
-        self.size = len;
+        let new_start = add_mod(self.start, drop_len, N);
+        unsafe { self.drop_range(drop_range, new_start, len) };
     }
 
     /// Drops all the elements in the buffer.
